@@ -401,7 +401,7 @@ impl Property for C09 {
         "one run = a world-A history in which EVERY report delivery is corrupted by one drawn byte-level fault (bitflip/byteset/truncate/extend/lenfield/splice/fieldswap/garbage) or replaced by a structurally valid degenerate value, plus per delivery the enumeration of every boundary value in the length/threshold fields and every short prefix; each delivered string is handed to every decoder, decoded shares are pooled and recovered in drawn mixed collections (star, adss, sharks layers, WASM grouping); then a PPOPRF exchange whose public key, proof, request point and evaluation are corrupted / carry undecodable group elements / lack a proof. Oracle: no receiver unwinds. non-trivial = at least one corrupted input was ACCEPTED by a decoder and flowed on into recovery/verification; distinct = distinct event digests"
     }
     fn runs(&self, thorough: bool) -> u64 {
-        if thorough { 60_000 } else { 1_500 }
+        if thorough { 150_000 } else { 4_000 }
     }
     fn run(&self, ctx: &mut Ctx) -> Result<(), Violation> {
         let mut gen = GenCfg::standard(false);
